@@ -11,7 +11,7 @@ checks = {
    note="Trusted: rewriter, synctest, shim mutex semantics. The peer is the SDK's own server or (c06.peer*) a scripted protocol-conforming v3/v1 peer that also emits signals (also late ones), non-fatal errors and unknown message IDs; the harness drains signal channels as the API asks. Scheduling delays are logical: no fake time passes while a goroutine is held."),
 }
 checks["C07"] = dict(cat="fault_enumeration", ref="§7 C07", engine="server", technique="deterministic simulation with crash-point enumeration: real RunATPServer vs a scripted hostile client; EOF / read error / garbage at enumerated byte offsets of the client stream crossed with seeded schedules and step behaviours; reference-decoder model of accepted runs",
-   text="Grammar-drawn client scripts (valid and invalid messages, arbitrary CBOR, junk) against the real server with generated plugins whose steps succeed, fail, panic or are slow; base scripts are re-run with a fault at every message boundary +-1 and a stride (quick) or at every byte (thorough); the oracle counts terminal messages per run ID against what a reference decoder accepts from the bytes actually delivered, and decides hangs exactly on the fake clock. Batch c07.race repeats the hostile grammar in a -race build (happens-before-neutral scheduler): an SDK data race on a map is the runtime's fatal 'concurrent map read and map write', i.e. process death.",
+   text="Grammar-drawn client scripts (valid and invalid messages, arbitrary CBOR, junk) against the real server with generated plugins whose steps succeed, fail, panic or are slow; base scripts are re-run with a fault at every message boundary +-1 and a stride (quick) or at every byte (thorough); the oracle counts terminal messages per run ID against what a reference decoder accepts from the bytes actually delivered, and decides hangs exactly on the fake clock. Batch c07.cancel additionally cancels the context given to RunATPServer (restricted oracle: no panic, no hang, no return while the client is still connected); the rule that the server does not return while its input is open and intact applies to every batch. Batch c07.race repeats the hostile grammar in a -race build (happens-before-neutral scheduler): an SDK data race on a map is the runtime's fatal 'concurrent map read and map write', i.e. process death.",
    note="Trusted: rewriter, synctest, cbor library (also used by the reference decoder), Go's race detector for c07.race, the contract model of 'accepted work-start' stated in DESIGN §7 C07. A panic in a server goroutine is treated as process death. plugin.Run's os.Exit paths and real OS pipes are not simulated.")
 checks["C08"] = dict(cat="fault_enumeration", ref="§7 C08", engine="client", technique="deterministic simulation with crash-point enumeration: real ATP client vs a scripted v3/v1 server; EOF / read error / garbage / stall-then-EOF / single flipped byte (stream stays open) at enumerated byte offsets of the server stream, client writes failing independently, crossed with seeded schedules; reference-decoder oracle for fabricated results, exact hang detection",
    text="Generated transcripts (hello with a real self-described schema, work-done, signals, non-fatal/step-fatal/server-fatal errors, unknown IDs, unsupported versions, a schema that does not unserialize) are played reactively by a scripted server; the base transcript is run fault-free and then re-run with each fault kind at every message boundary +-1 and a stride (quick) or every byte (thorough). A success is legitimate only if a well-formed work-done for that run is present in the bytes actually delivered; every call and Close must return (decided exactly on the fake clock).",
